@@ -121,6 +121,56 @@ struct Arr3Slot : ISlot {
    std::string json() const override { return intList(v, v + 3); }
 };
 
+struct FwdSlot : ISlot {
+   std::forward_list<int> v;
+   explicit FwdSlot(const vj::Value& init) { auto x = init.ints(); for (auto it = x.rbegin(); it != x.rend(); ++it) v.push_front(static_cast<int>(*it)); }
+   TypedArgBase* dest(const std::string& n) override { return celma::prog_args::destination(v, n); }
+   std::string json() const override { return intList(v.begin(), v.end()); }
+};
+struct MsetSlot : ISlot {
+   std::multiset<int> v;
+   explicit MsetSlot(const vj::Value& init) { for (auto x : init.ints()) v.insert(static_cast<int>(x)); }
+   TypedArgBase* dest(const std::string& n) override { return celma::prog_args::destination(v, n); }
+   std::string json() const override { return intList(v.begin(), v.end()); }
+};
+// adapters without iterators: the projection is the pop order
+struct StackSlot : ISlot {
+   std::stack<int> v;
+   explicit StackSlot(const vj::Value& init) { auto x = init.ints(); for (auto it = x.rbegin(); it != x.rend(); ++it) v.push(static_cast<int>(*it)); }
+   TypedArgBase* dest(const std::string& n) override { return celma::prog_args::destination(v, n); }
+   std::string json() const override { auto c = v; std::vector<int> o; while (!c.empty()) { o.push_back(c.top()); c.pop(); } return intList(o.begin(), o.end()); }
+};
+struct QueueSlot : ISlot {
+   std::queue<int> v;
+   explicit QueueSlot(const vj::Value& init) { for (auto x : init.ints()) v.push(static_cast<int>(x)); }
+   TypedArgBase* dest(const std::string& n) override { return celma::prog_args::destination(v, n); }
+   std::string json() const override { auto c = v; std::vector<int> o; while (!c.empty()) { o.push_back(c.front()); c.pop(); } return intList(o.begin(), o.end()); }
+};
+struct PqSlot : ISlot {
+   std::priority_queue<int> v;
+   explicit PqSlot(const vj::Value& init) { for (auto x : init.ints()) v.push(static_cast<int>(x)); }
+   TypedArgBase* dest(const std::string& n) override { return celma::prog_args::destination(v, n); }
+   std::string json() const override { auto c = v; std::vector<int> o; while (!c.empty()) { o.push_back(c.top()); c.pop(); } return intList(o.begin(), o.end()); }
+};
+struct SArr3Slot : ISlot {
+   std::array<int, 3> v;
+   explicit SArr3Slot(const vj::Value& init) { for (size_t i = 0; i < 3; ++i) v[i] = i < init.size() ? static_cast<int>(init[i].num()) : 0; }
+   TypedArgBase* dest(const std::string& n) override { return celma::prog_args::destination(v, n); }
+   std::string json() const override { return intList(v.begin(), v.end()); }
+};
+struct TupSlot : ISlot {
+   std::tuple<int, std::string, int> v;
+   explicit TupSlot(const vj::Value& init) { if (init.size() == 3) v = std::make_tuple(static_cast<int>(init[0].num()), init[1].bytes(), static_cast<int>(init[2].num())); }
+   TypedArgBase* dest(const std::string& n) override { return celma::prog_args::destination(v, n); }
+   std::string json() const override { return "[" + std::to_string(std::get<0>(v)) + "," + codes(std::get<1>(v)) + "," + std::to_string(std::get<2>(v)) + "]"; }
+};
+struct Bits8Slot : ISlot {
+   std::bitset<8> v;
+   explicit Bits8Slot(const vj::Value& init) { for (size_t i = 0; i < 8 && i < init.size(); ++i) v[i] = init[i].boolean(); }
+   TypedArgBase* dest(const std::string& n) override { return celma::prog_args::destination(v, n); }
+   std::string json() const override { std::string s = "["; for (size_t i = 0; i < 8; ++i) { if (i) s += ','; s += v[i] ? "true" : "false"; } return s + "]"; }
+};
+
 static std::unique_ptr<ISlot> makeSlot(const std::string& kind, const vj::Value& init) {
    if (kind == "flag") return std::make_unique<FlagSlot>(init);
    if (kind == "int") return std::make_unique<IntSlot>(init);
@@ -132,6 +182,14 @@ static std::unique_ptr<ISlot> makeSlot(const std::string& kind, const vj::Value&
    if (kind == "dequeint") return std::make_unique<IntContSlot<std::deque<int>>>(init);
    if (kind == "vecstr") return std::make_unique<VecStrSlot>(init);
    if (kind == "arr3") return std::make_unique<Arr3Slot>(init);
+   if (kind == "fwdint") return std::make_unique<FwdSlot>(init);
+   if (kind == "msetint") return std::make_unique<MsetSlot>(init);
+   if (kind == "stackint") return std::make_unique<StackSlot>(init);
+   if (kind == "queueint") return std::make_unique<QueueSlot>(init);
+   if (kind == "pqint") return std::make_unique<PqSlot>(init);
+   if (kind == "sarr3") return std::make_unique<SArr3Slot>(init);
+   if (kind == "tup") return std::make_unique<TupSlot>(init);
+   if (kind == "bits8") return std::make_unique<Bits8Slot>(init);
    return nullptr;
 }
 
@@ -274,6 +332,7 @@ static std::unique_ptr<Built> build(const vj::Value& cfg, bool grouped, int extr
       } catch (const std::exception& e) {
          if (b->defineRes.size() <= i) b->defineRes.push_back("refused");
          else b->defineRes.back() = "refused";
+         if (cfg["lenient"].boolean() && b->defineRes.size() == i + 1) continue;   // C05: the handler keeps the other arguments
          b->setupFailed = true; b->setupWhat = e.what();
          break;
       }
